@@ -15,7 +15,7 @@ import (
 
 // C20 — hashed file-tree paths keep the parent/child relation; a trailing slash is neutral.
 
-var c20Sigma = []string{"", "a", "b", "ab", "é", " ", "s", "home", strings.Repeat("x", 300)}
+var c20Sigma = []string{"", "a", "b", "ab", "é", " ", "s", "home", ".", "..", strings.Repeat("x", 300)}
 
 func c20Canon(segs []string) []string {
 	if len(segs) > 1 && segs[len(segs)-1] == "" {
@@ -40,6 +40,13 @@ func c20CheckSeq(segs []string) []mc.Viol {
 	got := fttypes.MerklePath(path)
 	if want := c20Fold(c20Canon(segs)); got != want {
 		vs = append(vs, viol("address-is-fold-of-segment-hashes", "fold", "MerklePath(%q) = %s, independent fold = %s", path, got, want))
+	}
+	if segs[n-1] != "" && n >= 2 && segs[n-2] != "" {
+		// the repository's own client-side splitter (used to build PostFile messages from a plain path)
+		ph, ch := fttypes.MerkleHelper(path)
+		if ph != ftMerkle(strings.Join(segs[:n-1], "/")) || ch != hexsha(segs[n-1]) || fttypes.AddToMerkle(ph, ch) != got {
+			vs = append(vs, viol("child-address-from-parent-address", "client-splitter", "MerkleHelper(%q) = (%s, %s): combining them gives %s, MerklePath gives %s", path, ph, ch, fttypes.AddToMerkle(ph, ch), got))
+		}
 	}
 	if segs[n-1] != "" { // path does not end in '/'
 		if a, b := fttypes.MerklePath(path+"/"), got; a != b {
